@@ -95,4 +95,26 @@ def wfList : List Node → Bool
   | n :: r => n.wf && wfList r
 end
 
+/-! ## serialisation of a rule tree
+
+`renderList body t` writes the tree `t` given the bytes `body e` of every event: the items of a block in order, a
+block as its opening bytes, its items and `}`; a *statement* (at-rule statement, declaration, custom property) is
+separated from a following sibling by one `;` — nothing follows the last item of a block. -/
+
+def Node.isStmt : Node → Bool
+  | .leaf e => e.gt == .atRule || e.gt == .declaration || e.gt == .customProperty
+  | .block _ _ _ => false
+
+mutual
+def renderNode (body : Ev → List Char) : Node → List Char
+  | .leaf e => body e
+  | .block op kids _ => body op ++ (renderList body kids ++ ['}'])
+def renderList (body : Ev → List Char) : List Node → List Char
+  | [] => []
+  | n :: r => renderNode body n ++ ((if n.isStmt && !r.isEmpty then [';'] else []) ++ renderList body r)
+end
+
+/-- number of rule blocks (qualified rules and at-rule blocks) in a tree, empty ones included -/
+def countBlocks : List Ev → Nat := fun evs => (evs.filter Ev.isOpen).length
+
 end Verif.Spec.CssGrammar
